@@ -244,6 +244,7 @@ package motion
 //@   modifies mp.recorder.open, mp.recorder.inFile, mp.recorder.wfault, mp.recorder.starts, mp.recorder.startOK, mp.recorder.bg, mp.recorder.thresh
 //@   modifies mp.recorder.next, mp.recorder.first, mp.recorder.writes, mp.recorder.stops, mp.recorder.stopOK
 //@   call Detect#1 bind m
+//@   call Detect#1 assert [C04,C07,C08,C09,C15] $0 == mp.motionDetector && $1 == frame
 //@   call WriteFrame#1 ghost seq = mp.frameLoop.n()
 //@   call WriteFrame#1 assert [C01] $1 == mp.frameLoop.frames[mp.frameLoop.currentIndex] && mp.frameLoop.seq(mp.frameLoop.currentIndex) == seq
 //@   call WriteFrame#1 assert [C01] !mp.recorder.wfault ==> seq == mp.recorder.next || (mp.recorder.inFile == 0 && seq >= mp.recorder.next)
@@ -251,6 +252,7 @@ package motion
 //@   ghost_exit mp.run = (m && mp.recorder.stops == old(mp.recorder.stops)) ? old(mp.run) + 1 : 0
 //@   ghost_exit mp.lastMotionFW = mp.recorder.starts != old(mp.recorder.starts) ? 0 : (old(mp.isRecording) && m ? old(mp.framesWritten) : old(mp.lastMotionFW))
 //@   ensures mp.wired() && mp.frameLoop.n() == old(mp.frameLoop.n()) + 1
+//@   ensures [C04,C07,C09] ncalls("Detect") == 1
 //@   ensures [C01,C02,C12,C13] mp.recSeq()
 //@   ensures [C03] mp.recLen()
 //@   ensures [C04] mp.recRun()
@@ -318,6 +320,8 @@ package motion
 //@   ensures [C02] result.frameLoop.size == recorderConf.PreviewSecs*c.FPS() + motionConf.TriggerFrames && result.frameLoop.n() == 0
 //@   ensures [C04] result.triggerFrames == motionConf.TriggerFrames && result.run == 0 && !result.isRecording
 //@   ensures [C20] result.log.interval == 60000000000
+//@   ensures [C07,C08,C11,C15] result.motionDetector.deltaThresh == motionConf.DeltaThresh && result.motionDetector.countThresh == motionConf.CountThresh && result.motionDetector.tempThresh == motionConf.TempThresh && result.motionDetector.warmerOnly == motionConf.WarmerOnly && result.motionDetector.useOneDiff == motionConf.UseOneDiffOnly && result.motionDetector.flooredFrames.size == motionConf.FrameCompareGap + 1 && result.motionDetector.start == motionConf.EdgePixels
+//@   ensures [C11,C15] result.motionDetector.tempThreshMin == motionConf.TempThreshMin && result.motionDetector.tempThreshMax == motionConf.TempThreshMax && result.motionDetector.dynamicThresh == motionConf.DynamicThreshold && result.motionDetector.previewFrames == recorderConf.PreviewSecs*c.FPS()
 //@   ensures [C17] result.constantRecording == !(isnil(constantRecorder) || ref(constantRecorder) == 0) && result.crFrames == 0
 //@   ensures [C01,C05] result.recorder == recorder && result.constantRecorder == constantRecorder && result.snapshotRecorder == snapshotRecorder && result.parseFrame == parseFrame
 
@@ -658,4 +662,4 @@ package motion
 //@   mode permissive
 //@   allocates
 //@   ensures result1 == nil ==> result0 != nil
-//@   check [C11] ncalls("DefaultThermalMotion") == 1 && callarg("DefaultThermalMotion", 1, 0) == cameraModel && ncalls("Unmarshal") == 1 && callarg("Unmarshal", 1, 1) == config.ThermalMotionKey
+//@   check [C07,C11,C15] ncalls("DefaultThermalMotion") == 1 && callarg("DefaultThermalMotion", 1, 0) == cameraModel && ncalls("Unmarshal") == 1 && callarg("Unmarshal", 1, 1) == config.ThermalMotionKey
